@@ -14,7 +14,7 @@
                        of tree t, and q's position relative to that window.
      entry_ok t (id,r) r is non-empty, id names a window of t, and r lies within that window. *)
 From Coq Require Import ZArith List Bool.
-From Tickit Require Import RectDefs WinRectSet WinDefs WinSpec WinHist WinExposeProofs WinFlushProofs WinLogDisjoint WinC02Extra.
+From Tickit Require Import RectDefs WinRectSet WinDefs WinSpec WinHist WinExposeProofs WinFlushProofs WinLogDisjoint WinC02Extra WinC02Exact.
 Import ListNotations.
 Local Open Scope Z_scope.
 
@@ -76,6 +76,53 @@ Theorem C02_rects_disjoint_partial : forall tree rects,
     disjoint2 r1 r2.
 Proof. exact flush_log_disjoint. Qed.
 Print Assumptions C02_rects_disjoint_partial.
+
+
+(* EXACT FORM.  What a flush does to the screen, for arbitrary drawing programs (text, erase,
+   characters, LINES, erase-rectangle, skip, clear) and pairwise disjoint damage rectangles
+   (the rectangle-set invariant of C05): a cell inside (damage /\ screen) ends up with what its
+   OWNER's own program, run on an empty cell at the cell's position relative to the owner
+   (prog_cell_in), leaves there -- nothing if the program does not touch it or skips it
+   last; every other cell keeps its content.  In particular line segments accumulate within
+   the owner's program only (C02_lines: the line bits of a cell are those of the owner's own
+   line ops after its last non-line op there): a masked cell's line mask is never changed by
+   another window. *)
+Theorem C02_exact : forall app progs, forall cfg st tm st' tm' lg,
+    win_flush cfg (prog_handler app progs) st tm = (st', tm', lg) ->
+    pairwise_disjoint (flush_rects cfg (after_queue st)) ->
+    forall q,
+      t_grid tm' q =
+      if r_later st && r_nexp (after_queue st) &&
+         cell_inb (root_selfrect st') q && in_any (flush_rects cfg (after_queue st)) q
+      then match content (let '(w, pw) := owner_rel (r_tree st') q in
+                          prog_cell_in app (progs w) w (lines (root_selfrect st')) (cols (root_selfrect st')) pw None) with
+           | Some c => c
+           | None => t_grid tm q
+           end
+      else t_grid tm q.
+Proof. exact (@WinC02Exact.win_flush_exact). Qed.
+Print Assumptions C02_exact.
+
+Theorem C02_lines : forall app progs, app_no_lines app -> forall cfg st tm st' tm' lg,
+    win_flush cfg (prog_handler app progs) st tm = (st', tm', lg) ->
+    pairwise_disjoint (flush_rects cfg (after_queue st)) ->
+    forall q,
+      r_later st && r_nexp (after_queue st) &&
+      cell_inb (root_selfrect st') q && in_any (flush_rects cfg (after_queue st)) q = true ->
+      let '(w, pw) := owner_rel (r_tree st') q in
+      let L := lines (root_selfrect st') in
+      let C := cols (root_selfrect st') in
+      match cell_after app (progs w) w (unit_rect pw) L C pw with
+      | Some c =>
+        t_grid tm' q = c /\
+        (is_line c = true ->
+         c = LINEBASE + tail_bits app (progs w) w (unit_rect pw) L C pw 0 /\
+         Z.land (c - LINEBASE) (Z.lnot (own_bits app (progs w) w (unit_rect pw) L C pw)) = 0)
+      | None => t_grid tm' q = t_grid tm q
+      end.
+Proof. exact (@WinC02Exact.win_flush_lines). Qed.
+Print Assumptions C02_lines.
+
 
 Example C02_nonvacuous :
   exists st tm, let '(_, tm', lg) := win_flush no_defects (prog_handler app_base (fun _ => [DText (-1) (-2) 9; DPaint])) st tm in
